@@ -31,7 +31,7 @@ CHECKS = {
  "C07": dict(engine="kani", design="DESIGN.md#c07",
    technique="bounded symbolic model checking of the compiled code (Kani/CBMC + CaDiCaL): symbolic fractions, cross-multiplication in a wider type",
    text="For T in {i8,i16,i64} (+ i32,i128 thorough) and all fractions with bounded components and denominators of either sign: every operator form returns the exact value in lowest terms with a positive denominator, cmp is the numeric order and consistent with ==, equal values hash identically, floor/ceil are exact.",
-   note="Trusted: Kani/CBMC/CaDiCaL. Components <= 7 (i8) / 31 / 15 (i128); larger magnitudes outside."),
+   note="Trusted: Kani/CBMC/CaDiCaL. Components <= 7 (i8, i64) / 10 (i16, i32) / 5 (i128); larger magnitudes outside (Euclid with symbolic division is the cost driver)."),
  "C08": dict(engine="mirsym", design="DESIGN.md#c08",
    technique="path-wise symbolic execution of the nightly MIR of rlib_io with z3: byte contents, chunk schedule and Interrupted faults are symbolic/forked inputs",
    text="mirsym executes the MIR of Reader path by path: input bytes symbolic over an alphabet, the read stub forks over every chunk length and over Interrupted; per path the solver decides equality with a reference parse, equality with the whole-input schedule (schedule independence), and panic freedom. Counterexamples are replayed against the native build through a scripted Read adaptor.",
